@@ -36,6 +36,7 @@ type Interpreter struct {
 	rateCounters  map[string]*value.Ratecounter
 	penaltyBoxes  map[string]*value.Penaltybox
 	callStack     []*ast.SubroutineDeclaration
+	includeDepth  int // number of module inclusions being resolved right now
 	Debugger      Debugger
 	IdentResolver func(v string) value.Value
 
